@@ -1,6 +1,6 @@
 # reg and TB_COMMON are injected by lib/props.py
 reg(id="C13",
-    gen=[],
+    gen=["globals"],
     model_targets=["C13/Corr.vo"],
     proof_targets=["Props/C13.vo"],
     props_file="Props/C13.v",
